@@ -88,9 +88,9 @@ CHECKS = {
     ),
     "C12": dict(
         engine="controlb",
-        technique="TLA+ spec (ClientHistory.tla: call histories on fresh/used clients, seeded and process-global random streams, memo of digests) model-checked by TLC; every exported history executed on the real client (in-process and in new interpreters with different PYTHONHASHSEED) and validated by Trace_ClientHistory",
+        technique="TLA+ spec (ClientHistory.tla: call histories on fresh/used clients, seeded and process-global random streams, the caller's baseline frame and default-argument objects as state that outlives a call, national summaries with their own arguments, memo of digests) model-checked by TLC; every exported history executed on the real client (in-process and in new interpreters with different PYTHONHASHSEED) and validated by Trace_ClientHistory",
         design_ref="DESIGN.md §5 C12, docs/controlb.md",
-        text="TLC checks Functional (equal arguments => equal digest) over all histories of <=3 calls x 2 argument tuples x 3 estimators x same/fresh client x national summary (6k states; 171k in thorough); six design switches (unseeded sigma = F2, unseeded split, unseeded bootstrap generator, model reuse, mutated defaults, set-order dependence) each reproduce a counterexample; 192 (2,608) exported histories are executed on the real client with the global numpy/random state perturbed by entropy between calls, and re-executed in new interpreters with PYTHONHASHSEED 0/1/12345/random; bit-level digests of every returned table are merged into traces and validated by the memo of the trace spec.",
+        text="TLC checks Functional (equal arguments => equal digest) over all histories of <=3 calls x 2 argument tuples x 3 estimators x same/fresh client x national summary (6k states; 171k in thorough); eight design switches (unseeded sigma = F2, unseeded split, unseeded bootstrap generator, model reuse, mutated defaults, set-order dependence, summary components kept on the model object, margin weights not rebuilt on a re-used caller frame = F17) each reproduce a counterexample; 192 (2,608) exported histories are executed on the real client with the global numpy/random state perturbed by entropy between calls, and re-executed in new interpreters with PYTHONHASHSEED 0/1/12345/random; bit-level digests of every returned table are merged into traces and validated by the memo of the trace spec.",
         note="The harness never seeds anything itself; digests are dtype-aware float.hex hashes including column names and order.",
     ),
     "C13": dict(
